@@ -74,3 +74,10 @@ impl Axecutor {
         v
     }
 }
+
+impl Axecutor {
+    /// The bytes an instruction fetch at `address` would see (mem_read_executable_bytes is crate-private)
+    pub fn verif_fetch_bytes(&self, address: u64) -> Result<Vec<u8>, crate::helpers::errors::AxError> {
+        self.mem_read_executable_bytes(address)
+    }
+}
